@@ -322,6 +322,38 @@ fn c08_http_edge_ranges() {
     println!("COMPANION-OK cases={}", cases);
 }
 
+/// read_at (header and dictionary fetches) honours the configured retry budget too: a first attempt cut mid-body or
+/// closed before any body byte, with retries(1), must end in success with exactly the requested bytes
+#[test]
+fn c08_http_read_at_retries() {
+    let rt = tokio::runtime::Builder::new_multi_thread().worker_threads(2).enable_all().build().unwrap();
+    let d = Arc::new(data(200));
+    let mut cases = 0;
+    for cut in [0usize, 1, 7, 19] {
+        for (retries, expect_ok) in [(1u32, true), (3, true), (0, false)] {
+            let d2 = d.clone();
+            let (res, nreq) = rt.block_on(async move {
+                let log: Log = Arc::new(Mutex::new(vec![]));
+                let listener = TcpListener::bind("127.0.0.1:0").await.unwrap();
+                let port = listener.local_addr().unwrap().port();
+                let server = tokio::spawn(serve(listener, d2, ServerScript { cut_after: vec![cut], piece: 1000 }, log.clone()));
+                let url = reqwest::Url::parse(&format!("http://127.0.0.1:{}/a", port)).unwrap();
+                let mut reader = HttpReader::from_url(url).retries(retries).retry_delay(Duration::from_millis(1));
+                let r = tokio::time::timeout(Duration::from_secs(30), reader.read_at(30, 20)).await.map(|x| x.map(|b| b.to_vec()).map_err(|e| format!("{:?}", e)));
+                server.abort();
+                let n = log.lock().unwrap().len();
+                (r, n)
+            });
+            let res = match res { Ok(r) => r, Err(_) => continue };     // timeout: inconclusive under load
+            let detail = format!("read_at(30, 20), first attempt cut after {} body bytes, retries {}: {:?}, {} requests", cut, retries, res.as_ref().map(|v| v.len()), nreq);
+            if expect_ok { if res.as_ref().ok() != Some(&d[30..50].to_vec()) { witness("HttpReader::read_at does not resume a failed transfer although the retry budget covers it", detail); } }
+            else if res.is_ok() && res.as_ref().ok() != Some(&d[30..50].to_vec()) { witness("HttpReader::read_at returned wrong bytes", detail); }
+            cases += 1;
+        }
+    }
+    println!("COMPANION-OK cases={}", cases);
+}
+
 #[test]
 fn c15_http_bounded_retries() {
     let rt = tokio::runtime::Builder::new_multi_thread().worker_threads(2).enable_all().build().unwrap();
